@@ -4,5 +4,6 @@
 use nvh::e2e::*;
 
 fn main() {
-    run_main_par(|seed, n| gen_cases(seed, n, GenOpts::default()), exec_case, 6);
+    let opts = GenOpts { limited_forward: std::env::var("NVH_E2E_LIMFWD").is_ok(), ..GenOpts::default() };
+    run_main_par(move |seed, n| gen_cases(seed, n, opts), exec_case, 6);
 }
